@@ -12,10 +12,11 @@ use peginator::{ParseError, PegParser};
 use proc_macro2::TokenStream;
 use quote::{format_ident, quote};
 
-use super::common::{safe_ident, CodegenGrammar, CodegenRule, CodegenSettings};
+use super::common::{check_path, safe_ident, CodegenGrammar, CodegenRule, CodegenSettings};
 
 impl CodegenGrammar for Grammar {
     fn generate_code(&self, settings: &CodegenSettings) -> Result<TokenStream> {
+        check_path(&settings.derives, "derive list")?;
         let mut all_types = TokenStream::new();
         let mut all_parsers = TokenStream::new();
         let mut all_impls = TokenStream::new();
@@ -62,13 +63,13 @@ impl CodegenGrammar for Grammar {
                     }
                 }
                 Grammar_rules::CharRule(rule) => {
-                    let rule_ident = safe_ident(&rule.name);
-                    all_types.extend(quote!(pub type #rule_ident = char;));
                     all_impls.extend(
                         rule.generate_code(settings).with_context(|| {
                             format!("Error processing @char rule {}", rule.name)
                         })?,
                     );
+                    let rule_ident = safe_ident(&rule.name);
+                    all_types.extend(quote!(pub type #rule_ident = char;));
                 }
                 Grammar_rules::ExternRule(rule) => {
                     let (types, impls) = rule
